@@ -300,6 +300,7 @@ def run(ctx):
     proved = ctx.prove("C08")
     proved = ctx.prove("C08", props="PropsDamping") and proved     # driver-model theorem shared with C05
     proved = ctx.prove("C08", props="PropsThermal") and proved     # thermal uniqueness over C10's pipeline model
+    proved = ctx.prove("C08", props="PropsThermalPumps") and proved  # ... with circulation pumps (identity rows)
     proved = ctx.prove("C08", props="PropsSensitivity") and proved # sqrt(tol) sensitivity of nearly stagnant flows
     proved = ctx.prove("C08", props="PropsAcyclic") and proved     # passive level networks: acyclic flow graph
     rng = ctx.rng
